@@ -782,9 +782,12 @@ class Backend(threading.Thread):
                 # pgcat auth_query support
                 if self.auth_rows is not None and 'pg_shadow' in sql:
                     out = [W.RowDescription(['usename', 'passwd'])]
-                    for r in self.auth_rows:
+                    # the query names the user (WHERE usename = '<name>'): answer with that user's row only
+                    rows = [r for r in self.auth_rows if ("'%s'" % r[0]) in sql] or \
+                        ([] if any(("'%s'" % r[0]) in sql for r in self.auth_rows) or len(self.auth_rows) > 1 else list(self.auth_rows))
+                    for r in rows:
                         out.append(W.DataRow(list(r)))
-                    out.append(W.CommandComplete('SELECT %d' % len(self.auth_rows)))
+                    out.append(W.CommandComplete('SELECT %d' % len(rows)))
                     out.append(W.Ready(s.tx))
                     s.send(b''.join(out))
                     continue
